@@ -4,7 +4,7 @@ import json, os, sys
 sys.path.insert(0, os.path.dirname(os.path.abspath(__file__)))
 from checks import PROPS, NOT_APPLICABLE
 
-TECH = "bounded symbolic execution of the real Go SSA (go/ssa) into SMT-LIB2, decided by z3/cvc5; counterexamples replayed natively with go test -overlay"
+TECH = "solver-based checking of the real code: bounded symbolic execution of the package's Go SSA (go/ssa, regenerated from /repo on every run) into SMT-LIB2, every assertion decided by an SMT solver (z3 5.1.0, cvc5 1.0.3 with bit-vectors-as-integers for multiply/divide kernels); counterexamples and twin witnesses replayed natively with go test -overlay"
 checks = []
 for pid in sorted(PROPS):
     sp = PROPS[pid]
@@ -32,7 +32,7 @@ m = {
         "add_only": True,
     },
     "engines": [{"name": "gosym", "path": "/verif/engine", "serves_properties": [c["property_id"] for c in checks],
-                 "kind_free_text": "path-forking symbolic interpreter over go/ssa of /repo's current working tree; terms to SMT-LIB2; z3 4.8.12 (z3 -in) and cvc5 1.0.3 as deciding back ends; every counterexample replayed natively"}],
+                 "kind_free_text": "path-forking symbolic interpreter over go/ssa of /repo's current working tree; terms to SMT-LIB2; z3 5.1.0 (z3-new -in) and cvc5 1.0.3 (--incremental, --solve-bv-as-int=sum) as deciding back ends, persistent solver processes with push/pop; every counterexample and, on every run, witnesses of deliberately false twin assertions replayed natively"}],
     "checks": checks,
     "not_applicable": [{"property_id": k, "reason": v} for k, v in sorted(NOT_APPLICABLE.items()) if k not in [c["property_id"] for c in checks]],
     "notes": "See DESIGN.md. Exit codes of ./check: 0 all obligations discharged within the registered bounds; 1 VIOLATION (replays natively, not a listed known finding); 2 inconclusive (never reported as a violation).",
